@@ -116,6 +116,14 @@ def run(ctx):
             specs.append(flowcheck.prepare(dict(tag="C07/d%03d" % len(specs), certs=[cert], attempts=4,
                                                 endpoints={"A": {"ca": {"detail_style": [letter, nb]}, "script": [{"kind": kind, "nth": 1, "fault": "acme:unauthorized:403", "repeat": 10 ** 6}]}},
                                                 meta={"family": "long error text", "letter": letter, "bytes": nb, "kind": kind})))
+    # problem documents with the optional members of RFC 7807 / RFC 8555 6.7.1 (an empty or a filled list of sub-problems, instance, title):
+    # the CA's message is reported whatever else the document holds
+    for style in ("subproblems_empty", "subproblems", "instance"):
+        for kind in ("newOrder", "finalize", "challenge", "newAccount"):
+            for fault in ("acme:unauthorized:403", "acme:rejectedIdentifier:400"):
+                specs.append(flowcheck.prepare(dict(tag="C07/q%03d" % len(specs), certs=[cert], attempts=2,
+                                                    endpoints={"A": {"ca": {"problem_style": style}, "script": [{"kind": kind, "nth": 1, "fault": fault, "repeat": 1}]}},
+                                                    meta={"family": "problem document with optional members", "style": style, "kind": kind, "fault": fault})))
     # a failed attempt that took more than a minute of REAL time (a slow challenge hook): the pause is counted from its end
     slow = []
     for h in standard_hooks():
